@@ -219,4 +219,31 @@ def substring (s : List Char) (start : Int) (len : Option Int) : List Char :=
   | some l => if l ≤ 0 then [] else (s.drop i).take l.toNat
   | none => s.drop i
 
+/-! ### assignment coercion (`update/value_updater.rs::coerce_assigned_value`, and the same range rule
+of `insert/validation.rs::coerce_value` for exact integers): an exact-integer value is brought to the
+column's integer type with `try_from` — the value itself when it is in the type's range, otherwise no
+conversion (the statement then fails in the storage-level type check and changes nothing). -/
+
+inductive ColTy where
+  | smallint | integer | bigint | unsigned
+  deriving DecidableEq, Repr, Inhabited
+
+/-- range of the Rust type behind the column type (`i16`, `i64`, `i64`, `u64`) -/
+def tyMin : ColTy → Int
+  | .smallint => -(2 ^ 15)
+  | .integer => -(2 ^ 63)
+  | .bigint => -(2 ^ 63)
+  | .unsigned => 0
+
+def tyMax : ColTy → Int
+  | .smallint => 2 ^ 15 - 1
+  | .integer => 2 ^ 63 - 1
+  | .bigint => 2 ^ 63 - 1
+  | .unsigned => 2 ^ 64 - 1
+
+def inRangeTy (ty : ColTy) (i : Int) : Bool := decide (tyMin ty ≤ i) && decide (i ≤ tyMax ty)
+
+/-- `T::try_from(i).ok()` -/
+def coerceTo (ty : ColTy) (i : Int) : Option Int := if inRangeTy ty i then some i else none
+
 end VibeProof.Arith
